@@ -30,7 +30,7 @@ from hpstatic.terms import (sym, intern, show, subterms, calls_in, NONE, num, kw
                             FALSE, TRUE)
 from hpstatic.xrnorm import atom_rewrite
 from . import c01
-from .common import const_list
+from .common import const_list, norm_cond
 
 MUTATION_TARGETS = {'holopy/core/io/io.py': ['pack_attrs', 'unpack_attrs', 'push', 'mean', 'std', 'load_average', 'save'], 'holopy/core/metadata.py': ['update_metadata', 'make_coords', 'data_grid', 'to_vector'], 'holopy/core/utils.py': ['updated']}
 
@@ -65,6 +65,7 @@ def run(check, prog):
     accumulator(check, prog)
     load_average(check, prog)
     save_dispatch(check, prog)
+    tables_exact(check, prog)
 
 
 def metadata_edit(check, prog):
@@ -796,3 +797,186 @@ def wiring_load_average(check, prog, it, res, fd, loc):
     check.require(ok, 'U4-crop-coordinates', 'load_average',
                   'after cropping, mean and std images carry the reference image\'s '
                   'x and y coordinates', loc)
+
+
+def tables_exact(check, prog):
+    """the conditions under which each entry is written / read, with polarity"""
+    def cs(e):
+        return [(t, p) for t, p in norm_cond(e['cond']) if t[0] != 'loop-iter']
+    # ---- unpack_attrs
+    q = IO + 'unpack_attrs'
+    fd = prog.func(q)
+    loc = prog.loc(q, fd)
+    a = sym(fd.args.args[0].arg)
+    it = Interp(prog, max_depth=1, opaque=['holopy.core.utils.dict_without'])
+    res = it.analyze(q)
+    empty = intern(('cmp', '==', ('call', 'len', (a,), ()), num(0)))
+    early = [o for o in res.returns if o.value == a]
+    ok = len(early) == 1 and norm_cond(early[0].cond) == [(empty, True)]
+    check.require(ok, 'U2-reader-table', 'unpack_attrs empty attrs',
+                  'an empty mapping is returned as is -- and only an empty one', loc)
+    st = [e for e in it.effects if e['kind'] == 'setitem']
+    rows = {}
+    for e in st:
+        v = e['value']
+        kind = 'array' if (v[0] == 'call' and v[1] == 'xarray.DataArray') else (
+            'plain' if (v[0] == 'call' and v[1] == 'yaml.safe_load') else (
+                'none' if v == NONE else 'other'))
+        rows[kind] = e
+    ok = set(rows) == {'array', 'plain', 'none'} and len(st) == 3
+    detail = 'stores: %s' % sorted(rows)
+    if ok:
+        key = rows['array']['key']
+        ref = [x for x in subterms(rows['array']['value']) if x[0] == 'idx' and
+               x[2] == key and x[1][0] == 'call' and x[1][1] == 'yaml.load']
+        ok = bool(ref)
+        if ok:
+            R = ref[0]                      # attr_ref[attr]
+            I = intern(('cmp', 'in', key, a))
+            val = intern(('idx', a, key))
+            va = rows['array']['value']
+            ok = cs(rows['array']) == [(R, True)] and \
+                cs(rows['plain']) == [(R, False), (I, True)] and \
+                cs(rows['none']) == [(R, False), (I, False)] and \
+                va[2] == (val,) and kw(va, 'coords') == R and \
+                rows['plain']['value'][2] == (val,) and \
+                all(e['key'] == key for e in rows.values())
+            detail = 'array when %s; plain when %s; None when %s' % tuple(
+                [(show(t)[:40], p) for t, p in cs(rows[k])]
+                for k in ('array', 'plain', 'none'))
+    check.require(ok, 'U2-reader-table', 'unpack_attrs rows',
+                  'coordinate table entry truthy -> DataArray(a[attr], coords=entry); '
+                  'falsy and attr stored -> safe_load(a[attr]); falsy and not stored '
+                  '-> None', loc, fail_detail=detail)
+    # ---- pack_attrs
+    q = IO + 'pack_attrs'
+    fd = prog.func(q)
+    loc = prog.loc(q, fd)
+    a = sym(fd.args.args[0].arg)
+    it = Interp(prog, max_depth=1, opaque=[MD + 'get_spacing',
+                                           'holopy.core.utils.ensure_array'])
+    res = it.analyze(q)
+    st = [e for e in it.effects if e['kind'] == 'setitem']
+    nm = [e for e in st if e['key'] == ('const', 'name')]
+    nme = intern(('attr', a, 'name'))
+    ok = len(nm) == 1 and nm[0]['value'] == nme and \
+        cs(nm[0]) == [(('cmp', 'is', nme, NONE), False)] or \
+        (len(nm) == 1 and nm[0]['value'] == nme and
+         cs(nm[0]) == [(('cmp', 'is not', nme, NONE), True)])
+    check.require(ok, 'U2-coordinate-table', 'pack_attrs name',
+                  'the image name is stored iff it is not None', loc)
+    sp = [e for e in st if e['key'] == ('const', 'spacing')]
+    ok = len(sp) == 1 and cs(sp[0]) == [(sym(fd.args.args[1].arg), True)] and \
+        bool(calls_in(sp[0]['value'], MD + 'get_spacing'))
+    check.require(ok, 'U2-coordinate-table', 'pack_attrs spacing',
+                  'the spacing is stored iff do_spacing', loc)
+    fin = [e for e in st if e['key'] == ('const', '_attr_coords')]
+    ok = len(fin) == 1 and not cs(fin[0]) and fin[0]['value'][0] == 'call' and \
+        fin[0]['value'][1] == 'yaml.dump' and fin[0]['value'][2] and \
+        fin[0]['value'][2][0][0] == 'idx' and \
+        fin[0]['value'][2][0][2] == ('const', '_attr_coords')
+    check.require(ok, 'U2-coordinate-table', 'pack_attrs table is text',
+                  'the coordinate table is finally stored as yaml text under '
+                  '_attr_coords (what unpack_attrs parses)', loc)
+    isarr = [t for e in st for t, p in cs(e) if t[0] == 'call' and t[1] == 'isinstance']
+    ok = bool(isarr)
+    if ok:
+        A = isarr[0]
+        ok = A[2][1] == ('extref', 'xarray.DataArray') and A[2][0][0] == 'idx' and \
+            A[2][0][2] == num(1)
+        val = A[2][0]
+        tab_arr = [e for e in st if e['value'] == ('dict', ()) and cs(e) == [(A, True)]]
+        tab_plain = [e for e in st if e['value'] == FALSE and cs(e) == [(A, False)]]
+        vals_arr = [e for e in st if calls_in(e['value'], 'list') and
+                    cs(e) == [(A, True)] and e['key'][0] == 'idx']
+        ok = ok and len(tab_arr) == 1 and len(tab_plain) == 1 and len(vals_arr) == 1 \
+            and any(x == ('attr', val, 'values') for x in subterms(vals_arr[0]['value']))
+    check.require(ok, 'U2-coordinate-table', 'pack_attrs rows',
+                  'labelled arrays: table entry {dim: values} and the values as a '
+                  'list; everything else: table entry False', loc)
+    # ---- Accumulator queries
+    AQ = IO + 'Accumulator'
+    me = sym('self')
+    it = Interp(prog, max_depth=0)
+    v = it.analyze(AQ + '.mean').ret
+    M = intern(('attr', me, '_running_mean'))
+    ok = v[0] == 'ite' and ((v[1] == ('cmp', 'is not', M, NONE) and v[2] == M) or
+                            (v[1] == ('cmp', 'is', M, NONE) and v[3] == M))
+    check.require(ok, 'U4-queries', 'Accumulator.mean',
+                  'the running mean whenever something was pushed',
+                  prog.loc(AQ + '.mean', prog.func(AQ + '.mean')),
+                  fail_detail='returns %s' % show(v)[:120])
+    it = Interp(prog, max_depth=0)
+    v = it.analyze(AQ + '.std').ret
+    n = intern(('attr', me, '_n'))
+    z = intern(('cmp', '==', n, num(0)))
+    want = intern(('call', 'numpy.sqrt', (('bin', '/', ('attr', me, '_running_var'), n),),
+                   ()))
+    ok = v[0] == 'ite' and v[1] == z and v[2] == NONE and Canon().equal(v[3], want)
+    check.require(ok, 'U4-queries', 'Accumulator.std',
+                  'None only when nothing was pushed, else sqrt(S / n)',
+                  prog.loc(AQ + '.std', prog.func(AQ + '.std')),
+                  fail_detail='returns %s' % show(v)[:120])
+    # ---- to_vector on per-channel dictionaries
+    q = MD + 'to_vector'
+    fd = prog.func(q)
+    c = sym(fd.args.args[0].arg)
+    it = Interp(prog, max_depth=0)
+    res = it.analyze(q)
+    isd = intern(('call', 'isinstance', (c, ('extref', 'dict')), ()))
+    dr = [o for o in res.returns if any(t == isd and p for t, p in norm_cond(o.cond))]
+    ok = len(dr) == 1
+    detail = ''
+    if ok:
+        v = dr[0].value
+        cpy = intern(('call', ('attr', c, 'copy'), (), ()))
+        ok = v[0] == 'loop' and v[3] == cpy and v[4][0] == 'upd' and \
+            v[4][1][0] == 'phi' and v[4][4][0] == 'call' and v[4][4][1] == q and \
+            v[4][3][0] == 'idx' and v[4][3][2] == num(0) and \
+            v[4][4][2] == (('idx', v[4][3][1], num(1)),)
+        detail = 'returns %s' % show(v)[:160]
+    check.require(ok, 'U1-polarisation-normalised', 'to_vector per-channel dictionary',
+                  'a copy of the dictionary with every value normalised (the input '
+                  'dictionary is not modified)', prog.loc(q, fd), fail_detail=detail)
+    # ---- data_grid: axis labels, extra coordinates, optics slots
+    q = MD + 'data_grid'
+    fd = prog.func(q)
+    loc = prog.loc(q, fd)
+    P = {x.arg: sym(x.arg) for x in fd.args.args}
+
+    def decide(t):
+        if t[0] == 'cmp' and t[2] == P['extra_dims'] and t[3] == NONE:
+            return t[1] == 'is not'       # extra dims given
+        return None
+    it = Interp(prog, max_depth=1, decide=decide,
+                opaque=[MD + 'make_coords', MD + 'update_metadata'])
+    res = it.analyze(q)
+    da = [cc for cc in it.calls if cc['name'] == 'xarray.DataArray']
+    ok = len(da) == 1
+    if ok:
+        dims = kw_of(da[0], 'dims')
+        co = kw_of(da[0], 'coords')
+        want_dims = intern(('bin', '+', ('list', (('const', 'z'), ('const', 'x'),
+                                                  ('const', 'y'))),
+                            ('call', 'list', (('call', ('attr', P['extra_dims'], 'keys'),
+                                               (), ()),), ())))
+        ok = dims == want_dims and co is not None and co[0] == 'mut' and \
+            co[2] == 'update' and co[3] == (P['extra_dims'],) and \
+            co[1][0] == 'call' and co[1][1] == MD + 'make_coords'
+        nmt = kw_of(da[0], 'name')
+        ok = ok and nmt is not None and nmt[0] == 'ite' and (
+            (nmt[1] == ('cmp', 'is', P['name'], NONE) and nmt[3] == P['name']) or
+            (nmt[1] == ('cmp', 'is not', P['name'], NONE) and nmt[2] == P['name']))
+    check.require(ok, 'U3-pixel-grid', 'data_grid labels',
+                  "dims = ['z', 'x', 'y'] + extra dims; extra coordinates are added to "
+                  'the grid; a given name is kept', loc)
+    um = [cc for cc in it.calls if cc['name'] == MD + 'update_metadata']
+    ok = len(um) == 1
+    if ok:
+        b = bind_fn(prog, MD + 'update_metadata', um[0]['args'], um[0]['kwargs'])
+        ok = all(b.get(k) == P[k] for k in ('medium_index', 'illum_wavelen',
+                                            'illum_polarization', 'noise_sd')) and \
+            b.get('a') is not None and b['a'][0] == 'call' and \
+            b['a'][1] == 'xarray.DataArray'
+    check.require(ok, 'U3-pixel-grid', 'data_grid optics',
+                  'the optics arguments are attached, each in its own slot', loc)
